@@ -14,7 +14,8 @@ Definition no_stray_mark (m : impl) : Prop :=
   forall k c, g_get (i_conns m) k = Some c -> c_tbd c = true -> i_dde m = true.
 
 Definition impl_ok (m : impl) : Prop :=
-  wf (i_conns m) /\ fresh_inv (g_alloc (i_conns m)) (i_issued m) /\ no_stray_mark m.
+  wf (i_conns m) /\ fresh_inv (g_alloc (i_conns m)) (i_issued m) /\ no_stray_mark m /\
+  (i_emitting m = true -> i_alive m = true).
 
 Definition winv (w : world) : Prop := forall i m, get_impl w i = Some m -> impl_ok m.
 
@@ -250,12 +251,13 @@ Qed.
 
 Lemma impl_ok_erase m k : impl_ok m -> impl_ok (impl_with_conns m (g_erase (i_conns m) k)).
 Proof.
-  intros (Hwf & Hfr & Hmk). split; [|split]; cbn [i_conns i_issued impl_with_conns].
+  intros (Hwf & Hfr & Hmk & Hal). split; [|split; [|split]]; cbn [i_conns i_issued impl_with_conns].
   - apply erase_spec; assumption.
   - rewrite alloc_erase by assumption. apply fresh_inv_deallocate; [apply Hwf|assumption].
   - intros k' c Hg Ht. cbn [i_conns i_dde impl_with_conns] in *.
     destruct (erase_spec _ k Hwf) as (_ & Hget & _). rewrite Hget in Hg.
     destruct (gidx_eqb k k'); [discriminate|]. eapply Hmk; eassumption.
+  - exact Hal.
 Qed.
 
 (* overwrite an entry by one with the same mark (blocking), or by a marked one while setting the flag *)
@@ -263,8 +265,8 @@ Lemma impl_ok_update_same m k c c0 :
   impl_ok m -> g_get (i_conns m) k = Some c0 -> c_tbd c = c_tbd c0 ->
   impl_ok (impl_with_conns m (g_update (i_conns m) k c)).
 Proof.
-  intros (Hwf & Hfr & Hmk) Hc0 Ht. destruct (update_spec _ k c Hwf) as (Hwf' & Hget & _ & Ha & _).
-  split; [|split]; cbn [i_conns i_issued impl_with_conns]; [assumption|rewrite Ha; assumption|].
+  intros (Hwf & Hfr & Hmk & Hal) Hc0 Ht. destruct (update_spec _ k c Hwf) as (Hwf' & Hget & _ & Ha & _).
+  split; [|split; [|split]]; cbn [i_conns i_issued impl_with_conns]; [assumption|rewrite Ha; assumption| |exact Hal].
   intros k' c' Hg Hm'. cbn [i_conns i_dde impl_with_conns] in *. rewrite Hget in Hg.
   destruct (gidx_eqb k k') eqn:E.
   - rewrite Hc0 in Hg. inversion Hg; subst c'. eapply Hmk; [exact Hc0|congruence].
@@ -272,17 +274,21 @@ Proof.
 Qed.
 
 Lemma impl_ok_mark m k c :
-  impl_ok m -> impl_ok (impl_with_flags (impl_with_conns m (g_update (i_conns m) k c)) true true).
+  impl_ok m -> i_emitting m = true ->
+  impl_ok (impl_with_flags (impl_with_conns m (g_update (i_conns m) k c)) true true).
 Proof.
-  intros (Hwf & Hfr & Hmk). destruct (update_spec _ k c Hwf) as (Hwf' & _ & _ & Ha & _).
-  split; [|split]; cbn [i_conns i_issued impl_with_conns impl_with_flags]; [assumption|rewrite Ha; assumption|].
+  intros (Hwf & Hfr & Hmk & Hal) Hem. destruct (update_spec _ k c Hwf) as (Hwf' & _ & _ & Ha & _).
+  split; [|split; [|split]]; cbn [i_conns i_issued i_alive i_emitting impl_with_conns impl_with_flags];
+    [assumption|rewrite Ha; assumption| |intros _; apply Hal; assumption].
   intros k' c' _ _. reflexivity.
 Qed.
 
-Lemma impl_ok_emitting m b : impl_ok m -> impl_ok (impl_with_flags m b (i_dde m)).
-Proof. intros (Hwf & Hfr & Hmk). split; [|split]; assumption. Qed.
-Lemma impl_ok_owner m a b : impl_ok m -> impl_ok (impl_with_owner m a b).
-Proof. intros H; exact H. Qed.
+Lemma impl_ok_emit_start m : impl_ok m -> impl_ok (impl_with_owner (impl_with_flags m true (i_dde m)) (i_owned m) true).
+Proof. intros (Hwf & Hfr & Hmk & Hal). split; [|split; [|split]]; auto. Qed.
+Lemma impl_ok_emit_end m : impl_ok m -> impl_ok (impl_with_flags m false (i_dde m)).
+Proof. intros (Hwf & Hfr & Hmk & Hal). split; [|split; [|split]]; auto. cbn. discriminate. Qed.
+Lemma impl_ok_release m : impl_ok m -> impl_ok (impl_with_owner m false (i_emitting m)).
+Proof. intros (Hwf & Hfr & Hmk & Hal). split; [|split; [|split]]; auto. Qed.
 
 (* ---------------------------------------------------------------------------------------------- *)
 (* primitives of the model *)
@@ -343,7 +349,7 @@ Proof.
   destruct (g_get (i_conns m) k) as [c|] eqn:Hc.
   - destruct (i_emitting m) eqn:Hem.
     + split.
-      * apply winv_put; [assumption|]. apply impl_ok_mark. assumption.
+      * apply winv_put; [assumption|]. apply impl_ok_mark; assumption.
       * eapply wle_put; [eassumption|imono|].
         { unfold g_update. rewrite Hc. assumption. }
         intros _. split; [cbn; congruence|split].
@@ -366,7 +372,7 @@ Proof.
         eapply wle_put; [eassumption|imono|].
         { rewrite alloc_erase by apply Hok. apply stale_deallocate; [apply Hok|assumption]. }
         intros _. split; [reflexivity|split]; cbn; [rewrite Hem; discriminate|auto].
-  - pose proof Hok as (Hwf & Hfr & Hmk). destruct (erase_spec _ k Hwf) as (_ & _ & _ & Hnoop & _).
+  - pose proof Hok as (Hwf & Hfr & Hmk & Hal). destruct (erase_spec _ k Hwf) as (_ & _ & _ & Hnoop & _).
     rewrite (Hnoop Hc).
     assert (E : impl_with_conns m (i_conns m) = m) by (destruct m; reflexivity).
     rewrite E. split.
@@ -403,7 +409,7 @@ Lemma release_owner_ok w i : winv w -> winv (release_owner w i) /\ wle w (releas
 Proof.
   intros Hw. unfold release_owner. destruct (get_impl w i) as [m|] eqn:Hm; [|split; [auto|apply wle_on_refl]].
   split.
-  - apply winv_put; [assumption|]. apply impl_ok_owner. eapply Hw; eassumption.
+  - apply winv_put; [assumption|]. apply impl_ok_release. eapply Hw; eassumption.
   - eapply wle_put; [eassumption|imono|]. intros _. split; [|split]; cbn; auto.
 Qed.
 
@@ -461,7 +467,7 @@ Lemma sweep_ok idxs : forall w i m, winv w -> get_impl w i = Some m -> i_emittin
 Proof.
   induction idxs as [|x r IH]; intros w i m Hw Hm Hem; cbn [disconnect_where].
   - exists m. repeat split; auto. intros y [].
-  - rewrite Hm. pose proof (Hw _ _ Hm) as (Hwf & Hfr & Hmk).
+  - rewrite Hm. pose proof (Hw _ _ Hm) as (Hwf & Hfr & Hmk & Hal).
     destruct (g_indexAt (i_conns m) x) as [k|] eqn:Hix.
     + destruct (indexAt_get _ _ _ Hwf Hix) as (Hkx & c & Hc). rewrite Hc.
       destruct (c_tbd c) eqn:Ht.
@@ -501,7 +507,7 @@ Proof.
   pose proof (Hw _ _ Hm) as Hok. specialize (Hn _ eq_refl).
   set (m1 := impl_with_flags m false (i_dde m)).
   set (w1 := put_impl w i m1).
-  assert (Hw1 : winv w1) by (apply winv_put; [assumption|apply impl_ok_emitting; assumption]).
+  assert (Hw1 : winv w1) by (apply winv_put; [assumption|apply impl_ok_emit_end; assumption]).
   assert (Hg1 : get_impl w1 i = Some m1) by (eapply get_put_same; eassumption).
   assert (L1 : wle_on (fun j => j <> i) all all w w1).
   { eapply wle_put; [eassumption|imono|]. intros Hc; contradiction Hc; reflexivity. }
@@ -520,12 +526,12 @@ Proof.
       assert (gi_index k < g_size (i_conns m2)) by (unfold g_size; apply nth_error_Some; congruence).
       cbn [i_conns m1 impl_with_flags] in Hs. lia.
     - exists m1; split; [assumption|]. intros k c Hc.
-      destruct Hok as (_ & _ & Hmk). destruct (c_tbd c) eqn:Ht; [|reflexivity].
+      destruct Hok as (_ & _ & Hmk & _). destruct (c_tbd c) eqn:Ht; [|reflexivity].
       specialize (Hmk k c Hc Ht). congruence. }
   destruct H3 as (m2 & Hg2 & Hclean). rewrite Hg2.
   pose proof (Hw2 _ _ Hg2) as (Hwf2 & Hfr2 & _).
   split.
-  - apply winv_put; [assumption|]. split; [|split]; cbn; [assumption|assumption|].
+  - apply winv_put; [assumption|]. split; [|split; [|split]]; cbn; [assumption|assumption| |discriminate].
     intros k c Hc Ht. cbn in Hc. rewrite (Hclean _ _ Hc) in Ht. discriminate.
   - eapply wle_on_trans; [exact L12|]. eapply wle_put; [eassumption|imono|].
     intros Hc; contradiction Hc; reflexivity.
@@ -537,7 +543,7 @@ Lemma finish_emit_flag w i n m :
 Proof.
   intros Hm Hw. unfold finish_emit. rewrite Hm.
   set (w1 := put_impl w i (impl_with_flags m false (i_dde m))).
-  assert (Hw1 : winv w1) by (apply winv_put; [assumption|apply impl_ok_emitting; eapply Hw; eassumption]).
+  assert (Hw1 : winv w1) by (apply winv_put; [assumption|apply impl_ok_emit_end; eapply Hw; eassumption]).
   assert (Hg1 : get_impl w1 i = Some (impl_with_flags m false (i_dde m))) by (eapply get_put_same; eassumption).
   set (w2 := if i_dde m then disconnect_where c_tbd w1 i (seq 0 n) else w1).
   assert (H2 : wle w1 w2).
@@ -627,9 +633,9 @@ Section Contract.
     destruct (lookup (w_sigs w) s) as [[i|]|]; [|apply okres_ok; assumption|apply okres_throw; assumption].
     destruct (get_impl w i) as [m|] eqn:Hm; [|apply okres_throw; assumption].
     destruct (i_emitting m) eqn:Hem; [apply okres_throw; assumption|].
-    set (m1 := impl_with_flags m true (i_dde m)).
+    set (m1 := impl_with_owner (impl_with_flags m true (i_dde m)) (i_owned m) true).
     set (w1 := put_impl w i m1).
-    assert (Hw1 : winv w1) by (apply winv_put; [assumption|apply impl_ok_emitting; eapply Hw; eassumption]).
+    assert (Hw1 : winv w1) by (apply winv_put; [assumption|apply impl_ok_emit_start; eapply Hw; eassumption]).
     assert (L1 : wle_on (fun j => j <> i) all all w w1).
     { eapply wle_put; [eassumption|imono|]. intros Hc; contradiction Hc; reflexivity. }
     pose proof (walk_ok i args (seq 0 (g_size (i_conns m))) w1 Hw1) as [Hw2 L2].
@@ -640,7 +646,7 @@ Section Contract.
     { intros mm Hmm. rewrite Hg2 in Hmm; inversion Hmm; subst mm.
       destruct (K2 I) as (_ & Hk & _). destruct (Hk eq_refl) as [Hkeys _].
       unfold keys in Hkeys. apply (f_equal (@length _)) in Hkeys. rewrite !map_length in Hkeys.
-      unfold g_size. cbn [i_conns m1 impl_with_flags] in Hkeys. lia. }
+      unfold g_size. cbn [i_conns m1 impl_with_flags impl_with_owner] in Hkeys. lia. }
     destruct (finish_emit_ok w2 i (g_size (i_conns m)) Hw2 Hsz) as [Hw3 L3].
     split; [assumption|]. cbn [fst].
     assert (L : wle_on (fun j => j <> i) all (fun j => j <> i) w (finish_emit w2 i (g_size (i_conns m)))).
@@ -705,14 +711,14 @@ Section Contract.
       destruct (N.ltb_spec (N.of_nat (length (i_issued m)) + 1) W) as [Hlt|Hge]; cbn [negb];
         [|apply okres_throw; assumption].
       destruct (g_insert (i_conns m) c) as [g k] eqn:Hins.
-      destruct (Hw _ _ Hm) as (Hwf & Hfr & Hmk).
+      destruct (Hw _ _ Hm) as (Hwf & Hfr & Hmk & Halv).
       destruct (insert_spec _ _ _ _ Hwf Hins) as (Hwf' & _ & _ & Hget & _ & _ & _ & _ & Hal).
       assert (Hal' : ga_allocate (g_alloc (i_conns m)) = (g_alloc g, k)).
       { unfold g_insert in Hins. destruct (ga_allocate (g_alloc (i_conns m))) as [al k0] eqn:E.
         inversion Hins; subst. reflexivity. }
       destruct (fresh_inv_allocate _ _ _ _ (proj1 Hwf) Hfr Hlt Hal') as [Hfr' _].
       unfold ok, okres; cbn [fst]. split.
-      + eapply winv_same_impls; [reflexivity|]. apply winv_put; [assumption|]. split; [|split]; [assumption|assumption|].
+      + eapply winv_same_impls; [reflexivity|]. apply winv_put; [assumption|]. split; [|split; [|split]]; [assumption|assumption| |exact Halv].
         intros k' c' Hg Ht. cbn [impl_issue i_conns i_dde] in *. rewrite Hget in Hg.
         destruct (gidx_eqb k k'); [inversion Hg; subst; congruence|eapply Hmk; eassumption].
       + apply wle_on_trans with (b := put_impl w i (impl_issue m g k));
@@ -733,7 +739,7 @@ Section Contract.
         - rewrite nth_error_app1 in Hj by assumption. eapply Hw; eassumption.
         - rewrite nth_error_app2 in Hj by assumption.
           destruct (j - length (w_impls w)) as [|n]; cbn in Hj; [|destruct n; discriminate].
-          inversion Hj; subst mj. split; [apply wf_empty|split; [apply fresh_inv_empty|]].
+          inversion Hj; subst mj. split; [apply wf_empty|split; [apply fresh_inv_empty|split; [|reflexivity]]].
           intros k' c' Hgk. unfold g_get in Hgk; cbn in Hgk. destruct (gi_index k'); discriminate. }
       assert (L1 : wle w w1').
       { constructor.
@@ -758,7 +764,7 @@ Section Contract.
         inversion Hins; subst. reflexivity. }
       destruct (fresh_inv_allocate _ _ _ _ wf_alloc_empty fresh_inv_empty Hlt Hal') as [Hfr' _].
       unfold ok, okres; cbn [fst]. split.
-      + eapply winv_same_impls; [reflexivity|]. apply winv_put; [assumption|]. split; [|split]; [assumption|assumption|].
+      + eapply winv_same_impls; [reflexivity|]. apply winv_put; [assumption|]. split; [|split; [|split]]; [assumption|assumption| |reflexivity].
         intros k' c' Hgk Ht. cbn [impl_issue i_conns i_dde] in *. rewrite Hget in Hgk.
         destruct (gidx_eqb k k'); [inversion Hgk; subst; congruence|]. unfold g_get in Hgk; cbn in Hgk. destruct (gi_index k'); discriminate.
       + eapply wle_on_trans; [exact L1|].
